@@ -22,7 +22,7 @@ from strengths.units import UnitValue, UnitArray  # noqa: E402
 from strengths.rdnetwork import Species, RDNetwork  # noqa: E402
 from strengths.rdgridspace import RDGridSpace  # noqa: E402
 from strengths.rdgraphspace import RDGraphSpace, RDGraphSpaceNode  # noqa: E402
-from strengths.rdsystem import RDSystem  # noqa: E402
+from strengths.rdsystem import RDSystem, rdsystem_from_dict  # noqa: E402
 
 TOL = 1e-12
 ENVS = ["cyt", "mem", "ext"]
@@ -140,50 +140,50 @@ def check_defaults(case, system, out, stats, site="default"):
     nsp, nc = len(case["species"]), D.ncells(case)
     ref = D.default_state(case)
     vals, (usys, dim), raw = raw_state(system)
+    site0 = site
+    site = "default-state" if site == "default" else site + ":state"
     if dim != (0, 0, 1):
-        out.append(("C13:%s-state:%s:dimension" % (site, kind), "state has dimension %s, expected an amount" % (dim,)))
+        out.append(("C13:%s:%s:dimension" % (site, kind), "state has dimension %s, expected an amount" % (dim,)))
     elif len(vals) != nsp * nc:
-        out.append(("C13:%s-state:%s:length" % (site, kind), "state has %d entries, expected %d x %d"
+        out.append(("C13:%s:%s:length" % (site, kind), "state has %d entries, expected %d x %d"
                     % (len(vals), nsp, nc)))
     else:
-        for s in range(nsp):
-            for c in range(nc):
-                idx = D.state_index(s, c, nc)
-                exact, route = ref[idx]
-                stats["route_" + route] = stats.get("route_" + route, 0) + 1
-                err = rel_err(vals[idx], exact)
-                if not err <= TOL:
-                    out.append(("C13:%s-state:%s:value:%s" % (site, kind, route),
-                                "species %d (%s) cell %d (environment %r): state[%d] = %.17g molecules, "
-                                "density x volume = %.17g molecules (relative error %.3e)"
-                                % (s, case["species"][s]["label"], c, case["envs"][D.cell_env(case, c)], idx,
-                                   float(vals[idx]), float(exact), err)))
-                    break
-            else:
-                continue
-            break
-    check_default_flags(case, system, out, stats, site)
+        reported = set()
+        for idx, (exact, route) in enumerate(ref):
+            s, c = divmod(idx, nc)
+            stats["route_" + route] = stats.get("route_" + route, 0) + 1
+            err = rel_err(vals[idx], exact)
+            if not err <= TOL and route not in reported:
+                reported.add(route)         # one report per lookup route and system
+                out.append(("C13:%s:%s:value:%s" % (site, kind, route),
+                            "species %d (%s) cell %d (environment %r): state[%d] = %.17g molecules, "
+                            "density x volume = %.17g molecules (relative error %.3e)"
+                            % (s, case["species"][s]["label"], c, case["envs"][D.cell_env(case, c)], idx,
+                               float(vals[idx]), float(exact), err)))
+    check_default_flags(case, system, out, stats, site0)
 
 
 def check_default_flags(case, system, out, stats, site="default"):
     kind = kind_of(case)
+    site = "default-chemostats" if site == "default" else site + ":chemostats"
     nsp, nc = len(case["species"]), D.ncells(case)
     ref = D.default_chemostats(case)
     got = raw_chem(system)
     if len(got) != nsp * nc:
-        out.append(("C13:%s-chemostats:%s:length" % (site, kind), "chemostat map has %d entries, expected %d x %d"
+        out.append(("C13:%s:%s:length" % (site, kind), "chemostat map has %d entries, expected %d x %d"
                     % (len(got), nsp, nc)))
         return
+    reported = set()
     for idx, (flag, route) in enumerate(ref):
         if flag:
             stats["flags_set"] = stats.get("flags_set", 0) + 1
         stats["flagroute_" + route] = stats.get("flagroute_" + route, 0) + 1
-        if got[idx] != flag:
+        if got[idx] != flag and route not in reported:
+            reported.add(route)
             s, c = divmod(idx, nc)
-            out.append(("C13:%s-chemostats:%s:flag:%s" % (site, kind, route),
+            out.append(("C13:%s:%s:flag:%s" % (site, kind, route),
                         "species %d (%s) cell %d (environment %r): chemostats[%d] = %r, the species' flag there is %r"
                         % (s, case["species"][s]["label"], c, case["envs"][D.cell_env(case, c)], idx, got[idx], flag)))
-            return
 
 
 def getter_pass(case, net, system, out, stats, forms="all", rot=0, tag="default"):
@@ -447,7 +447,35 @@ def _case_override(case, out, stats):
             return
 
 
-_SUBS = {"default": _case_default, "access": _case_access, "ops": _case_ops, "regen": _case_regen,
+def case_to_dict(case):
+    """The documented dictionary form (documentation/json_and_dict_doc.rst) of a grid case, with an explicit
+    "units" dictionary at every level (nothing is left to inheritance)."""
+    def jq(q):
+        if isinstance(q, (list, tuple)):
+            if q[0] != "str":
+                raise ValueError("UnitValue objects have no dictionary form")
+            return "%r %s" % (q[1], q[2])
+        return q
+
+    def jspec(spec):
+        return {k: jq(v) for k, v in spec.items()} if isinstance(spec, dict) else jq(spec)
+    sp = case["space"]
+    return {"units": uq.sysdict(D.USYS[case["sys_us"]]),
+            "network": {"units": uq.sysdict(D.USYS[case["net_us"]]), "environments": list(case["envs"]), "reactions": [],
+                        "species": [{"label": s["label"], "density": jspec(s["density"]), "chstt": mk_flag(s["chstt"]),
+                                     "units": uq.sysdict(D.USYS[s["us"]])} for s in case["species"]]},
+            "space": {"type": "grid", "w": sp["w"], "h": sp["h"], "d": sp["d"], "cell_env": list(sp["env"]),
+                      "cell_volume": jq(sp["vol"]), "units": uq.sysdict(D.USYS[case["space_us"]])}}
+
+
+def _case_dict(case, out, stats):
+    """The same defaults when the system is built from its documented dictionary without "state"/"chemostats"."""
+    system = rdsystem_from_dict(case_to_dict(case))
+    check_defaults(case, system, out, stats, site="from_dict")
+    getter_pass(case, system.network, system, out, stats, forms="all", tag="from_dict")
+
+
+_SUBS = {"dict": _case_dict, "default": _case_default, "access": _case_access, "ops": _case_ops, "regen": _case_regen,
          "override": _case_override}
 
 
@@ -483,7 +511,11 @@ class Slots:
         p = PRIMES[k % len(PRIMES)] + 100 * (k // len(PRIMES))
         v = 0 if zero else p
         unit = self.units[k % len(self.units)]
-        form = self.form if self.form != "mixed" else ("bare", "str", "barefloat", "uv")[k % 4]
+        form = self.form
+        if form == "mixed":
+            form = ("bare", "str", "barefloat", "uv")[k % 4]
+        elif form == "mixedjson":
+            form = ("str", "bare", "barefloat")[k % 3]
         if form == "bare":
             return v
         if form == "barefloat":
@@ -874,8 +906,30 @@ def sp_override(tier):
     return name, seeds, expand
 
 
-SPACE_BUILDERS = [sp_shapes, sp_layout, sp_units, sp_access, sp_set1, sp_set2, sp_regen, sp_override]
-CHUNK = {0: 400, 1: 60, 2: 60, 3: 2, 4: 400, 5: 300, 6: 60, 7: 40}
+def sp_dict(tier):
+    shapes = [("grid", (2, 1, 2), [0, 1, 1, 0]), ("grid", (1, 3, 1), [1, 0, 1]), ("grid", (3, 2, 1), [0, 1, 0, 0, 0, 1])]
+    nets = [(["partial+default", "full"], ["full", "partial+default"]), (["scalar", "partial"], ["partial", "scalar"]),
+            (["full", "partial+default", "partial"], ["partial+default", "scalar", "full"])]
+    seeds = []
+    for roles4 in itertools.product(range(3), repeat=4):
+        for form in ("bare", "str", "mixedjson"):
+            for shi in range(len(shapes)):
+                for ni in range(len(nets)):
+                    seeds.append((roles4, form, shi, ni))
+
+    def expand(seed):
+        (a, b, c, e), form, shi, ni = seed
+        roles = (a, b, c, 0, e)
+        netp = network_part(2, nets[ni][0], nets[ni][1], roles, form)
+        return merge_case("dict", netp, space_part(shapes[shi], roles, form, k=shi))
+    name = ("from_dict: systems built by rdsystem_from_dict from the documented dictionary form without state / chemostats, explicit "
+            "units at every level: 3^4 unit-system roles (species, network, space, system) x value forms {bare, text, mixed} x "
+            "3 grids x 3 networks, all address forms")
+    return name, seeds, expand
+
+
+SPACE_BUILDERS = [sp_shapes, sp_layout, sp_units, sp_access, sp_set1, sp_set2, sp_regen, sp_override, sp_dict]
+CHUNK = {0: 400, 1: 60, 2: 60, 3: 2, 4: 400, 5: 300, 6: 60, 7: 40, 8: 60}
 
 _SPACES = None
 
@@ -884,7 +938,7 @@ def _nontrivial(case, stats):
     sub = case["sub"]
     if sub == "ops":
         return stats.get("state_entries_changed", 0) + stats.get("flags_flipped", 0) > 0
-    if sub in ("regen", "override", "access"):
+    if sub in ("regen", "override", "access", "dict"):
         return True
     # default: something other than a scalar applied everywhere in default units
     return (stats.get("route_default", 0) + stats.get("route_zero", 0) + stats.get("route_env", 0) > 0
